@@ -1,6 +1,6 @@
 (* C15 property theorems. Only statements closed by [exact lemma] and Print Assumptions. *)
 From V Require Import Common.Base C15.Names C15.Renamer C15.Spec
-  C15.NamesProofs C15.NumberProofs C15.SlotsProofs C15.MinifyProofs.
+  C15.NamesProofs C15.NumberProofs C15.SlotsProofs C15.MinifyProofs C15.ComposeProofs.
 
 (* NumberToMinifiedName is injective for every alphabet without repeated characters *)
 Theorem minified_name_injective : forall m,
@@ -141,3 +141,87 @@ Theorem number_renamer_pinned_nested_refuted :
   np_names = Some ([101; 50], [101; 50]).
 Proof. exact number_pinned_nested_collision. Qed.
 Print Assumptions number_renamer_pinned_nested_refuted.
+
+(* ---- composition slot -> name, and the chunk (cross-file) theorems ---- *)
+
+(* the names written back into the slots of one name space: distinct slot
+   indices carry distinct names, and every name is admissible for its slot *)
+Theorem minify_slot_names_distinct : forall mf,
+  NoDup (m_head mf) -> NoDup (m_tail mf) -> 1 <= zlen (m_head mf) -> 2 <= zlen (m_tail mf) ->
+  forall reserved fuel nsr slots out,
+  names_for_ns fuel mf reserved nsr slots = Some out ->
+  length out = length slots /\
+  (forall i1 i2, 0 <= i1 < Z.of_nat (length slots) -> 0 <= i2 < Z.of_nat (length slots) -> i1 <> i2 ->
+     slot_name out i1 <> slot_name out i2) /\
+  (forall i, 0 <= i < Z.of_nat (length slots) ->
+     name_ok reserved nsr (sl_jsx (nth (Z.to_nat i) slots empty_slot)) (slot_name out i)).
+Proof. exact names_for_ns_spec. Qed.
+Print Assumptions minify_slot_names_distinct.
+
+(* MinifyRenamer on one chunk, the whole pipeline (accumulate over all files,
+   per-file sort, AllocateTopLevelSymbolSlots, AssignNamesByFrequency): two
+   distinct symbols of one name space never print the same name, unless both
+   are nested symbols sharing a nested slot (which slots_distinct_on_chain
+   excludes for symbols visible together).  In particular: two top-level
+   symbols of the chunk - whatever files they come from and whatever their
+   original names -, and a top-level and a nested symbol, always differ. *)
+Theorem minify_chunk_names_distinct : forall mf,
+  NoDup (m_head mf) -> NoDup (m_tail mf) -> 1 <= zlen (m_head mf) -> 2 <= zlen (m_tail mf) ->
+  forall fuel st slots firstc stable reserved pre groups m3,
+  minify_rename fuel st slots firstc stable reserved mf pre groups = Some m3 ->
+  0 <= c_default firstc -> 0 <= c_label firstc -> 0 <= c_private firstc -> 0 <= c_mangled firstc ->
+  (forall r k, lookup slots r = Some k -> 0 <= k < cnt_get firstc (sy_ns (getsym st r))) ->
+  forall r1 r2 i1 i2, r1 <> r2 ->
+    follow st r1 = r1 -> follow st r2 = r2 ->
+    sy_ns (getsym st r1) = sy_ns (getsym st r2) -> sy_ns (getsym st r1) <> NsPinned ->
+    slot_of slots m3 r1 = Some i1 -> slot_of slots m3 r2 = Some i2 ->
+    (lookup slots r1 <> None -> lookup slots r2 <> None -> i1 <> i2) ->
+    minify_name_for st slots m3 r1 <> minify_name_for st slots m3 r2.
+Proof. exact minify_rename_chunk. Qed.
+Print Assumptions minify_chunk_names_distinct.
+
+(* NumberRenamer on one chunk: the top-level symbols of all files (AddTopLevelSymbol
+   in any order, equal original names included) get pairwise distinct names *)
+Theorem number_toplevel_distinct : forall fuel st reserved toplevel nested names,
+  number_rename fuel st reserved toplevel nested = Some names ->
+  wf_number st toplevel nested = true ->
+  forall x1 x2, In x1 toplevel -> In x2 toplevel -> follow st x1 <> follow st x2 ->
+    renameable (sy_ns (getsym st (follow st x1))) = true ->
+    renameable (sy_ns (getsym st (follow st x2))) = true ->
+    number_name_for st names x1 <> number_name_for st names x2.
+Proof. exact number_toplevel_distinct_all. Qed.
+Print Assumptions number_toplevel_distinct.
+
+(* ComputeReservedNames contains the name of every pinned symbol declared in a
+   module scope or in a scope reached from it through direct-eval scopes *)
+Theorem reserved_covers_eval_chains : forall st mods msc r,
+  In msc mods -> In r (eval_reach_decls msc) -> sy_ns (getsym st r) = NsPinned ->
+  In (sy_name (getsym st r)) (ComputeReservedNames st mods).
+Proof. exact reserved_covers. Qed.
+Print Assumptions reserved_covers_eval_chains.
+
+(* PARTIAL for minify_avoids_pinned_nested_refuted (full statement: "a minified
+   default name never equals the name of ANY pinned symbol visible with it"):
+   it holds for every pinned symbol of a module scope or of a direct-eval
+   chain; the refuted remainder is exactly a symbol pinned in a nested scope
+   that no direct-eval chain reaches (pinned by `with`), the recorded shape *)
+Theorem minify_avoids_pinned_partial : forall mf,
+  NoDup (m_head mf) -> NoDup (m_tail mf) -> 1 <= zlen (m_head mf) -> 2 <= zlen (m_tail mf) ->
+  forall fuel st slots firstc stable reserved pre groups m3 mods,
+  minify_rename fuel st slots firstc stable reserved mf pre groups = Some m3 ->
+  incl (ComputeReservedNames st mods) reserved ->
+  forall msc p, In msc mods -> In p (eval_reach_decls msc) -> sy_ns (getsym st p) = NsPinned ->
+  forall i, 0 <= i < Z.of_nat (length (ms_default m3)) ->
+    slot_name (ms_default m3) i <> sy_name (getsym st p).
+Proof. exact minify_avoids_pinned_partial_all. Qed.
+Print Assumptions minify_avoids_pinned_partial.
+
+(* PARTIAL for number_renamer_pinned_nested_refuted, same boundary *)
+Theorem number_avoids_pinned_partial : forall fuel st reserved toplevel nested names mods,
+  number_rename fuel st reserved toplevel nested = Some names ->
+  wf_number st toplevel nested = true ->
+  incl (ComputeReservedNames st mods) reserved ->
+  forall msc p, In msc mods -> In p (eval_reach_decls msc) -> sy_ns (getsym st p) = NsPinned ->
+  forall r n, lookup names r = Some n -> n <> sy_name (getsym st p).
+Proof. exact number_avoids_pinned_partial_all. Qed.
+Print Assumptions number_avoids_pinned_partial.
